@@ -364,7 +364,7 @@ const NSlices = 8
 //
 // Fixed enumeration (what thorough visits):
 //   corpus input  x every option set (9 x 2^7, 2^6 for C02) x simplify off/on; sub-nodes on the pairwise rows
-//   mut/gen input x the pairwise rows x simplify off/on; sub-nodes on row (idx mod rows)
+//   mut/gen input x the pairwise rows x simplify off/on; sub-nodes on every row
 // Quick visits, for seed s:
 //   corpus input i: every pairwise row with simplify = (i+row+s) odd?  plus the option sets c with
 //                   (i*7+c) mod 97 == s mod 97 (a rotating 1% of all combinations), sub-nodes on row (i+s) mod rows
@@ -381,7 +381,7 @@ func casesFor(pl Plan, idx int, in Input, rows, all []OptSet) []Case {
 			}
 			for _, o := range all {
 				for _, simp := range []bool{false, true} {
-					out = append(out, Case{In: in, Simplify: simp, Opt: o, SubNodes: rowset[o] && !simp})
+					out = append(out, Case{In: in, Simplify: simp, Opt: o, SubNodes: rowset[o]})
 				}
 			}
 			return out
@@ -398,8 +398,8 @@ func casesFor(pl Plan, idx int, in Input, rows, all []OptSet) []Case {
 	}
 	for ri, o := range rows {
 		if thorough {
-			out = append(out, Case{In: in, Simplify: false, Opt: o, SubNodes: ri == idx%len(rows)})
-			out = append(out, Case{In: in, Simplify: true, Opt: o})
+			out = append(out, Case{In: in, Simplify: false, Opt: o, SubNodes: true})
+			out = append(out, Case{In: in, Simplify: true, Opt: o, SubNodes: true})
 		} else {
 			out = append(out, Case{In: in, Simplify: (idx+ri+s)%2 == 1, Opt: o, SubNodes: ri == (idx+s)%len(rows)})
 		}
